@@ -59,8 +59,18 @@ func main() {
 	replay := flag.String("replay", "", "replay file: re-evaluate that obligation")
 	mutFile := flag.String("mutant", "", "internal: evaluate one mutant file and print the violated rule keys as JSON")
 	goarch := flag.String("goarch", "", "GOARCH for loading (default host)")
+	genInv := flag.Bool("gen-inventory", false, "print the function inventory of the tree at -repo and exit")
+	flag.BoolVar(&noNormalise, "no-normalise", false, "debugging: do not inline functions that are missing from the inventory")
 	verbose := flag.Bool("v", false, "print every obligation")
 	flag.Parse()
+	if *genInv {
+		noNormalise = true
+		if err := genInventory(*repo); err != nil {
+			fmt.Fprintln(os.Stderr, err)
+			os.Exit(2)
+		}
+		return
+	}
 
 	if t := os.Getenv("VERIF_TIER"); t != "" && !flagSet("tier") {
 		*tier = t
@@ -109,7 +119,31 @@ func main() {
 			writeEvidence(*verif, def, nil, nil, *tier, seed, start, 1, 0, nil, "load failed: "+err.Error())
 			os.Exit(1)
 		}
+		if p.Normalised != nil && ai == 0 {
+			r := p.Normalised
+			fmt.Printf("sacheck: %d function(s) are not in the frozen inventory; %d call site(s) inlined, %d helper(s) removed, %d kept as they are (%d rounds).  Positions below refer to the normalised source, written to %s\n",
+				len(r.NewFuncs), len(r.Inlined), len(r.Deleted), len(r.Kept), r.Iterations, filepath.Join(*verif, "evidence", "normalised"))
+			for _, k := range r.Kept {
+				fmt.Printf("sacheck:   kept: %s\n", k)
+			}
+			dir := filepath.Join(*verif, "evidence", "normalised")
+			_ = os.RemoveAll(dir)
+			for name, content := range normOverlay {
+				rel, err := filepath.Rel(*repo, name)
+				if err != nil || strings.HasPrefix(rel, "..") {
+					continue
+				}
+				if orig, err := os.ReadFile(name); err == nil && string(orig) == string(content) {
+					continue
+				}
+				_ = os.MkdirAll(filepath.Dir(filepath.Join(dir, rel)), 0o755)
+				_ = os.WriteFile(filepath.Join(dir, rel), content, 0o644)
+			}
+		}
 		c := runRules(def, p)
+		if p.Normalised != nil {
+			c.Notes = append(c.Notes, fmt.Sprintf("normalisation against inventory.txt: new functions %v; inlined %v; removed %v; kept %v", p.Normalised.NewFuncs, p.Normalised.Inlined, p.Normalised.Deleted, p.Normalised.Kept))
+		}
 		if ai == 0 {
 			ctx0, prog0 = c, p
 			all = append(all, c.Obls...)
